@@ -28,6 +28,7 @@ import (
 	"github.com/getlantern/zenodb/common"
 	"github.com/getlantern/zenodb/core"
 	"github.com/getlantern/zenodb/encoding"
+	"github.com/getlantern/zenodb/simhook"
 )
 
 const (
@@ -149,12 +150,14 @@ func (t *table) openRowStore(opts *rowStoreOptions) (*rowStore, common.OffsetsBy
 					if rmErr != nil {
 						return nil, nil, errors.New("Unable to remove corrupted file %v: %v", existingFileName, err)
 					}
+					simhook.Point("open.corruptRemoved", t.db, t.Name)
 					continue
 				}
 			}
 
 			offsetsBySource = newOffsetsBySource.Advance(offsetsBySource)
 			t.log.Debugf("Initializing row store from %v", existingFileName)
+			simhook.Point("open.fileChosen", t.db, t.Name)
 			break
 		}
 	}
@@ -256,6 +259,7 @@ func (rs *rowStore) processInserts(offsetsBySource common.OffsetsBySource, stop 
 
 			if ms.offsetChanged {
 				rs.t.log.Debug("No new data, but we've advanced through the WAL, record the change")
+				simhook.Point("offs.begin", rs.t.db, rs.t.Name)
 				err := rs.writeOffsets(ms.offsetsBySource)
 				if err != nil {
 					rs.t.log.Errorf("Unable to write updated offset: %v", err)
@@ -293,6 +297,7 @@ func (rs *rowStore) processInserts(offsetsBySource common.OffsetsBySource, stop 
 				rs.t.updateHighWaterMarkMemory(insert.vals.TimeInt())
 			}
 			rs.mx.Unlock()
+			simhook.Point("rs.applied", rs.t.db, rs.t.Name)
 		case <-flushTimer.C:
 			rs.t.log.Trace("Requesting flush due to flush interval")
 			flush(false)
@@ -307,6 +312,7 @@ func (rs *rowStore) processInserts(offsetsBySource common.OffsetsBySource, stop 
 			return
 		case fields := <-rs.fieldUpdates:
 			rs.t.log.Debugf("Updating fields to %v", fields)
+			simhook.Point("rs.fieldUpdate", rs.t.db, rs.t.Name)
 			// update fields immediately
 			rs.fields = fields
 
@@ -335,6 +341,7 @@ func (rs *rowStore) iterate(ctx context.Context, outFields core.Fields, includeM
 		ms = rs.memStore.copy()
 	}
 	rs.mx.RUnlock()
+	simhook.Point("scan.snapshotTaken", rs.t.db, rs.t.Name)
 	rs.mx.Lock()
 	rs.iterationsInProgress[fs.filename]++
 	rs.mx.Unlock()
@@ -383,12 +390,19 @@ func (rs *rowStore) doProcessFlush(ms *memstore, allowSort, allowFailure bool) (
 
 	fs.t.log.Debugf("Starting flush, %v", willSort)
 	start := time.Now()
+	simhook.Point("flush.begin", rs.t.db, rs.t.Name)
+	if simhook.Enabled {
+		if ferr := simhook.Fail("flush.tempCreate", rs.t.db, rs.t.Name); ferr != nil {
+			rs.t.db.Panic(ferr)
+		}
+	}
 
 	out, err := ioutil.TempFile("", "nextrowstore")
 	if err != nil {
 		rs.t.db.Panic(err)
 	}
 	defer out.Close()
+	simhook.Point("flush.tempCreated", rs.t.db, rs.t.Name)
 
 	highWaterMark, rowCount, flushErr := fs.flush(out, rs.fields, nil, ms.offsetsBySource, ms, shouldSort, disallowRaw)
 	if flushErr != nil {
@@ -407,15 +421,28 @@ func (rs *rowStore) doProcessFlush(ms *memstore, allowSort, allowFailure bool) (
 		rs.t.db.Panic(flushErr)
 	}
 
+	simhook.Point("flush.bodyDone", rs.t.db, rs.t.Name)
+	if simhook.Enabled {
+		if ferr := simhook.Fail("flush.sync", rs.t.db, rs.t.Name); ferr != nil {
+			rs.t.db.Panic(ferr)
+		}
+	}
 	if syncErr := out.Sync(); syncErr != nil {
 		rs.t.db.Panic(syncErr)
 	}
+	simhook.Point("flush.synced", rs.t.db, rs.t.Name)
 	fi, err := out.Stat()
 	if err != nil {
 		fs.t.log.Errorf("Unable to stat output file to get size: %v", err)
 	}
 	if closeErr := out.Close(); closeErr != nil {
 		rs.t.db.Panic(closeErr)
+	}
+	simhook.Point("flush.closed", rs.t.db, rs.t.Name)
+	if simhook.Enabled {
+		if ferr := simhook.Fail("flush.rename", rs.t.db, rs.t.Name); ferr != nil {
+			rs.t.db.Panic(ferr)
+		}
 	}
 
 	// Note - we left-pad the unix nano value to the widest possible length to
@@ -425,6 +452,7 @@ func (rs *rowStore) doProcessFlush(ms *memstore, allowSort, allowFailure bool) (
 	if renameErr := os.Rename(out.Name(), newFileStoreName); renameErr != nil {
 		rs.t.db.Panic(renameErr)
 	}
+	simhook.Point("flush.renamed", rs.t.db, rs.t.Name)
 	defer func() {
 		shasum, err := calcShaSum(newFileStoreName)
 		if err != nil {
@@ -440,6 +468,7 @@ func (rs *rowStore) doProcessFlush(ms *memstore, allowSort, allowFailure bool) (
 	rs.fileStore = fs
 	rs.memStore = ms
 	rs.mx.Unlock()
+	simhook.Point("flush.swapped", rs.t.db, rs.t.Name)
 
 	flushDuration := time.Now().Sub(start)
 	if fi != nil {
@@ -470,6 +499,7 @@ func (fs *fileStore) flush(out *os.File, fields core.Fields, filter goexpr.Expr,
 			highWaterMark = nextHighWaterMark
 		}
 		rowCount++
+		simhook.Point("flush.rowWritten", fs.t.db, fs.t.Name)
 		return true, nil
 	}
 
@@ -532,6 +562,7 @@ func (fs *fileStore) createOutWriter(out *os.File, fields core.Fields, offsetsBy
 	if err != nil {
 		return nil, errors.New("Unable to write header: %v", err)
 	}
+	simhook.Point("flush.headerWritten", fs.t.db, fs.t.Name)
 
 	if !shouldSort {
 		return sout, nil
@@ -660,20 +691,29 @@ func (rs *rowStore) writeOffsets(offsetsBySource common.OffsetsBySource) error {
 		rs.t.db.Panic(err)
 	}
 	defer out.Close()
+	simhook.Point("offs.tempCreated", rs.t.db, rs.t.Name)
 
 	err = rs.t.writeOffsets(out, offsetsBySource)
 	if err != nil {
 		return errors.New("Unable to write offsets: %v", err)
+	}
+	simhook.Point("offs.written", rs.t.db, rs.t.Name)
+	if simhook.Enabled {
+		if ferr := simhook.Fail("offs.sync", rs.t.db, rs.t.Name); ferr != nil {
+			return ferr
+		}
 	}
 
 	err = out.Sync()
 	if err != nil {
 		return errors.New("Unable to sync offset file: %v", err)
 	}
+	simhook.Point("offs.synced", rs.t.db, rs.t.Name)
 	err = out.Close()
 	if err != nil {
 		return errors.New("Unable to close offset file: %v", err)
 	}
+	simhook.Point("offs.closed", rs.t.db, rs.t.Name)
 
 	return os.Rename(out.Name(), filepath.Join(rs.opts.dir, offsetFilename))
 }
@@ -714,10 +754,12 @@ func (rs *rowStore) removeOldFiles(stop <-chan interface{}) {
 					// Okay to delete now
 					name := filepath.Join(rs.opts.dir, filename)
 					rs.t.log.Debugf("Removing old file %v", name)
+					simhook.Point("gc.beforeRemove", rs.t.db, rs.t.Name)
 					err := os.Remove(name)
 					if err != nil {
 						rs.t.log.Errorf("Unable to delete old file store %v, still consuming disk space unnecessarily: %v", name, err)
 					}
+					simhook.Point("gc.removed", rs.t.db, rs.t.Name)
 				}
 			}
 		}
